@@ -13,7 +13,7 @@ RULE = (
     "(a) Engine-A runs with time-dependent fields (fast, slow down to 1e-9 relative change per step, piecewise constant, returning, "
     "through zero) and/or screening: after every refresh and before every psi attempt the operators in use are compared bitwise with "
     "a rebuild from the solver's link exponents and within 1e-10 with the reference Laplacian for the potential in force; (b) seeded "
-    "refresh histories (length 1..6, repeats, zeros, pinned/unpinned) on bare MeshOperators. Non-trivial = at least one in-place refresh; "
+    "refresh histories (length 1..6, repeats, zeros, pinned/unpinned) on bare MeshOperators; life cycles: solver solved twice, a sibling solver alive on the same device, device read back from a file. Non-trivial = at least one in-place refresh; "
     "distinct = scenario digests"
 )
 BUDGET = {"quick": {"runs": 600, "chunk": 10}, "thorough": {"runs": 90000, "chunk": 20}}
@@ -52,7 +52,7 @@ def gen(seed, idx, tier):
             scn["options"]["pause_on_interrupt"] = True
             scn["observer"] = {"output": None, "answers": rnd.choice([["y"], ["y"], ["n"]])}
         scn["meta"]["refresh_fault"] = kind
-    return scen.maybe_sibling(rnd, scen.maybe_solve_twice(rnd, scn))
+    return scen.maybe_restored(rnd, scen.maybe_sibling(rnd, scen.maybe_solve_twice(rnd, scn)))
 
 
 def gen_bare(rnd):
